@@ -957,6 +957,94 @@ def real_time_script(rng, n_late=120, n_early=3000, first_id=930):
     return out
 
 
+def real_time_measured(rng, n_segments, T=300, M=100, base_id=940):
+    """Production configuration (real `Instant`), a finite timeout T ms, outcomes that DO depend on real
+    time being short - made safe by measurement instead of by avoidance.  Every feed and poll is bracketed
+    by two real-clock readings (`rt`: r0 before, r1 after the call, microseconds); whatever reading the
+    call itself took lies between them, so for a poll p and an earlier feed f of the same channel the
+    scanner's own `elapsed` lies in [p.r0 - f.r1, p.r1 - f.r0].  The script only polls a channel when every
+    earlier value of that channel is at least T + M or at most T - M old in DECLARED time (`sn`, ms), and
+    `scanners.measured_filter` discards a segment from the first poll whose classification the measured
+    brackets do not confirm (a prefix of a trace is a trace).  What is left is judged by the same trace
+    specification as every scripted-clock run.  Instance a gets the interleaved stream of 2-3 channels,
+    instances b + c the projection on each of them at the same moments (twins, C15), every call of a twin on a fresh
+    thread of its own (`thr`) so that the two share no thread-local state: a time stamp or a clock
+    reading shared between channels shows here and nowhere under a scripted clock."""
+    out = []
+    a, b = base_id, base_id + 1
+    for seg in range(n_segments):
+        chans = rng.sample(range(16), rng.choice([2, 2, 3]))
+        out.append({"op": "new", "id": a, "k": "poll", "to": T, "seg": seg})
+        for c in chans:
+            out.append({"op": "new", "id": b + c, "k": "poll", "to": T, "seg": seg})
+        t = 0
+        feeds = {c: [] for c in chans}
+
+        def feed(m):
+            out.append({"op": "feed", "id": a, "m": m, "rt": True, "sn": t})
+            if m[0] < 240:
+                feeds.setdefault(m[0] % 16, []).append(t)
+                if m[0] % 16 in chans:
+                    out.append({"op": "feed", "id": b + m[0] % 16, "m": m, "rt": True, "thr": True, "sn": t, "tw": 1, "twp": "C15"})
+
+        def sleep(dt):
+            nonlocal t
+            out.append({"op": "tick", "id": -1, "dt": dt, "sleep": True})
+            t += dt
+
+        def settled(c):
+            return all(t - f >= T + M or t - f <= T - M for f in feeds[c])
+
+        def poll(c):
+            out.append({"op": "poll", "id": a, "ch": c, "rt": True, "sn": t})
+            if c in chans:
+                out.append({"op": "poll", "id": b + c, "ch": c, "rt": True, "thr": True, "sn": t, "tw": 1, "twp": "C15"})
+
+        for c in chans:
+            reg = rng.random() < 0.5
+            feed([176 + c, 101 if reg else 99, rval(rng)])
+            feed([176 + c, 100 if reg else 98, rval(rng)])
+        shape = rng.random()
+        if shape < 0.35:
+            # one channel holds a value; much later another channel gets one and is polled EARLY, then late
+            x, y = chans[0], chans[1]
+            if rng.random() < 0.5:
+                x, y = y, x
+            feed([176 + x, rng.choice([6, 38]), rval(rng)])
+            sleep(rng.choice([T - M, T - M - 40, T + M]))
+            if rng.random() < 0.5 and settled(x):
+                poll(x)
+            feed([176 + y, 6, rval(rng)])
+            sleep(rng.choice([40, 120, T - M]))
+            poll(y)
+            if settled(x):
+                poll(x)
+            sleep(T + M - 40)
+            if settled(y):
+                poll(y)
+        for _ in range(rng.randrange(6, 14)):
+            r = rng.random()
+            c = rng.choice(chans)
+            if r < 0.40:
+                k = rng.random()
+                if k < 0.7:
+                    feed([176 + c, rng.choice([6, 6, 38, 38, 96, 97]), rval(rng)])
+                elif k < 0.85:
+                    feed([176 + c, rng.choice([98, 99, 100, 101]), rval(rng)])
+                else:
+                    feed([rng.choice(OTHER_CH_STATUS) + c, rng.choice(PN_CNS), rval(rng)])
+            elif r < 0.65:
+                sleep(rng.choice([30, 60, 120, 180, T - M, T + M, T + M + 20]))
+            elif settled(c):
+                poll(c)
+            else:
+                sleep(rng.choice([60, 120, 2 * M]))
+        sleep(T + M + 20)
+        for c in chans:
+            poll(c)
+    return out
+
+
 def reset_after_histories(rng, kind, to, base_id=720, depth=4):
     """C17: reset() after EVERY short history over the contributing controllers of one channel (all
     orders of value MSB / LSB / increment / re-selection after a number selection; all orders of two MSB /
